@@ -304,7 +304,7 @@ def replay(case):
 
 
 def repro_py(case):
-    from mc.spec import render_xml
+    from mc.spec import doc_xml as render_xml
     spec = dict(case["spec"])
     spec["parents"] = tuple(spec["parents"])
     spec["crits"] = tuple(spec["crits"])
